@@ -76,9 +76,20 @@ def general_batches(seed, tier):
 
 
 def run_item(item):
-    sd = make_sd(item["bnet"])
-    sd, log = run_history(sd, item["history"])
-    return {"log": log, "dump": dump(sd)}
+    """one history on a fresh diagram; an exception raised by biobalm is an observable result of the run (recorded, compared across runs and
+    reported), not a failure of the harness"""
+    try:
+        sd = make_sd(item["bnet"])
+        sd, log = run_history(sd, item["history"])
+        return {"log": log, "dump": dump(sd)}
+    except Exception as e:  # noqa: BLE001
+        import traceback
+        from common import is_biobalm_file
+        tb = traceback.extract_tb(e.__traceback__)
+        lib = [f"{os.path.basename(fr.filename)}:{fr.lineno}" for fr in tb if is_biobalm_file(fr.filename)]
+        if not lib:
+            raise
+        return {"log": [f"EXCEPTION {type(e).__name__} at {lib[-1]}: {e}"[:300]], "dump": {"len": 0, "exception": type(e).__name__}}
 
 
 def child_main():
@@ -115,6 +126,11 @@ def check_with_info(case):
     info = {"items": len(items), "max_nodes": 0}
     base = results[0]
     for k, item in enumerate(items):
+        for (h, m), res in zip(runs, results):
+            if res[k]["dump"].get("exception"):
+                out.append(fail("biobalm_exception", "the history completes (no undocumented exception) in every process", f"item {k} ({item['net']}), PYTHONHASHSEED {h} ({m}): "
+                                f"{res[k]['log'][-1]}; history {item['history']}"))
+                break
         info["max_nodes"] = max(info["max_nodes"], base[k]["dump"]["len"])
         ref = json.dumps({"log": base[k]["log"], "dump": base[k]["dump"]}, sort_keys=True)
         for (h, m), res in zip(runs[1:], results[1:]):
